@@ -808,6 +808,58 @@ func run(e *core.Env) {
 		}
 		w.panics()
 
+		// ---- a peer that stops reading (a tenth of the batches) ----
+		// M takes no more bytes from its connection with V while a good thousand frames for M
+		// arrive at V over another link. V's queue towards M fills up; what V cannot queue it has to shed - it must go on serving
+		// everybody else. The honest peer's ping is the witness.
+		if tp.Chance(1, 10) {
+			var vm *simnet.SimConn
+			for _, p := range w.cn.Pairs() {
+				if p.Name == "M>V" && !p.A.IsClosed() && !p.B.IsClosed() {
+					vm = p.B // V's end of the connection M dialled
+				}
+			}
+			if vm != nil && M.Peering.GetLink(V.IP) != nil && H.Peering.GetLink(V.IP) != nil {
+				vm.StallWrites(true)
+				w.what = "a flood of frames for a peer that has stopped reading"
+				for k := 0; k < 1040; k++ {
+					// (the frames come in over H's link: a frame is never routed back over the
+					// link it arrived on. Who sends them does not matter to V: transit frames are
+					// forwarded without a look at their seal.)
+					f, err := H.Inst.Builder.NewFrameV1(H.IP, M.IP, frame.NetworkTraffic, nil, []byte("traffic frame for a peer that does not read ........"), nil)
+					if err != nil {
+						break
+					}
+					f.SetTTL(20)
+					if l := H.Peering.GetLink(V.IP); l != nil {
+						_ = l.Send(f)
+					}
+					// one at a time, so that V's workers are free for each (a router sheds what
+					// arrives while its workers are busy)
+					simnet.Wait()
+					w.cn.DrainFIFO(tp, 50)
+				}
+				simnet.Wait()
+				w.cn.DrainFIFO(tp, 2000)
+				w.panics()
+				notify, _, err := H.Router.PingPong.Send(V.IP, true, 0)
+				if err == nil {
+					simnet.Wait()
+					w.cn.RunFor(tp, 5*time.Second, 20000)
+					select {
+					case <-notify:
+						e.Probe("router_serves_others_while_one_peer_does_not_read")
+					default:
+						e.Fail("router-stalled", "while M does not read, a flood of frames that V has to send to M makes V deaf: the honest peer's ping to V got no answer within 5 s")
+					}
+				}
+				vm.StallWrites(false)
+				simnet.Wait()
+				w.cn.DrainFIFO(tp, 5000)
+				e.Fault("stalled_reader")
+			}
+		}
+
 		// ---- no stall: the honest peer's ping-pong still completes within 5 s ----
 		if H.Peering.GetLink(V.IP) == nil {
 			e.Fail("honest-link-lost", "the honest peer's link to V was closed (after %s)", w.what)
